@@ -28,7 +28,7 @@ def gen_tree(rng, depth, names, url_names=False, p_readme=0.4, servings_pool=(No
                            # (a readme is not a recipe: a title that ends like a serving phrase is just its title, whatever the count)
                            title=rng.choice(["Cat", "Ünï", "A & B", "Zed", "cat", "Lunch", "hot dish", "Meal plan week", "1 pot", "Party food for", "Buffet serves", "Snacks to serve"])
                            + rng.choice([" " + str(rng.randint(0, 9)), " " + str(rng.randint(0, 9)), "", " 20", " 12"]),
-                           links=[])
+                           links=[], body=rng.choice(["hello", "hello", ""]))      # (now and then a readme that is its title and nothing else)
     for i in range(rng.randint(0, 3)):
         counter[0] += 1
         d["recipes"].append(dict(file=rng.choice(pool) + str(counter[0]) + rng.choice([".md", ".md", ".MD"]),
@@ -84,7 +84,7 @@ def write_tree(d, path):
     path.mkdir(parents=True, exist_ok=True)
     if d["readme"] is not None:
         links = "\n\n".join(link_md(lab, url) for lab, url, _ in d["readme"]["links"])
-        (path / d["readme"]["file"]).write_text("# %s\n\nhello\n\n%s\n" % (d["readme"]["title"], links))
+        (path / d["readme"]["file"]).write_text("# %s\n\n%s\n\n%s\n" % (d["readme"]["title"], d["readme"].get("body", "hello"), links))
     for r in d["recipes"]:
         (path / r["file"]).write_text(r["raw"] if r.get("raw") is not None else recipe_text(r))
     for a in d["assets"]:
